@@ -106,6 +106,18 @@ def build(reg):
     reg.contract(MSG + ":_validate_kwargs", params={"kwargs": UNTRUSTED, "message": "str"}, returns="any",
                  ensures=[KW_OK.replace("value", "kwargs"), "result is kwargs"],
                  raises={"ProtocolError": "not (%s)" % KW_OK.replace("value", "kwargs")}, **common)
+    # payload transparency attributes: a standard name or "x_" + optionally [a-z][0-9a-z_]+   (WAMP payload passthru mode)
+    lo, dg = z3.Range("a", "z"), z3.Range("0", "9")
+    custom = z3.Concat(_lit("x_"), z3.Option(z3.Concat(lo, z3.Plus(_cls(lo, dg, _lit("_"))))))
+    reg.native_spec("enc_algo_ok", lambda ex, state, x: VBool(z3.InRe(x.t, z3.Union(_lit("cryptobox"), _lit("mqtt"), _lit("xbr"), custom))))
+    reg.native_spec("enc_ser_ok", lambda ex, state, x: VBool(z3.InRe(x.t, z3.Union(
+        _lit("json"), _lit("msgpack"), _lit("cbor"), _lit("ubjson"), _lit("flatbuffers"), custom))))
+    for fn, spec in (("is_valid_enc_algo", "enc_algo_ok"), ("is_valid_enc_serializer", "enc_ser_ok")):
+        arg = "enc_algo" if fn == "is_valid_enc_algo" else "enc_serializer"
+        ok = "type(%s) == str and %s(%s)" % (arg, spec, arg)
+        # the function returns a bool, None or a match object: only the truth value of the result is specified
+        reg.contract(MSG + ":" + fn, params={arg: UNTRUSTED}, returns="truth",
+                     ensures=["implies(%s, result)" % ok, "implies(not (%s), not result)" % ok], **common)
     parse_units(reg, common)
     unserialize_unit(reg, common)
 
@@ -264,15 +276,9 @@ def parse_units(reg, common):
           "implies('force_reregister' in wmsg[2] and wmsg[2]['force_reregister'] is not None, "
           "result.force_reregister == wmsg[2]['force_reregister'])"] + FF(2),
          extra_inline=["request", "procedure", "match", "invoke", "concurrency", "force_reregister"], loops=FF_LOOP)
-    # payload transparency attributes: a standard name or "x_" + optionally [a-z][0-9a-z_]+   (WAMP payload passthru mode)
-    lo, dg = z3.Range("a", "z"), z3.Range("0", "9")
-    custom = z3.Concat(_lit("x_"), z3.Option(z3.Concat(lo, z3.Plus(_cls(lo, dg, _lit("_"))))))
-    reg.native_spec("enc_algo_ok", lambda ex, state, x: VBool(z3.InRe(x.t, z3.Union(_lit("cryptobox"), _lit("mqtt"), _lit("xbr"), custom))))
-    reg.native_spec("enc_ser_ok", lambda ex, state, x: VBool(z3.InRe(x.t, z3.Union(
-        _lit("json"), _lit("msgpack"), _lit("cbor"), _lit("ubjson"), _lit("flatbuffers"), custom))))
     ENC_OPTS = {"enc_algo": "@V", "enc_key": "@V", "enc_serializer": "@V"}
     ENC_INL = ["args", "kwargs", "payload", "enc_algo", "enc_key", "enc_serializer"]
-    PAYLOAD_INL = [MSG + ":MessageWithAppPayload._init_app_payload", MSG + ":is_valid_enc_algo", MSG + ":is_valid_enc_serializer"] + \
+    PAYLOAD_INL = [MSG + ":MessageWithAppPayload._init_app_payload"] + \
         [MSG + ":MessageWithAppPayload." + x for x in ENC_INL]
 
     def PAYLOAD(i, lenient_args=False):
